@@ -99,6 +99,8 @@ class Texts:
             lines.append(ind + self.line(tag))
             if i < k - 1 and self.rng.random() < 0.25:
                 lines.append('')
+                if self.rng.random() < 0.3:
+                    lines.append('')          # two consecutive empty lines inside a text
         # normal form: min indent 0 is guaranteed by the first line
         return '\n'.join(lines)
 
@@ -153,6 +155,8 @@ def random_doc(rng, size='small', text_profile='plain', flavours=CORE_FLAVOURS, 
     doc = am.Doc(allow_properties=props)
     big = {'tiny': 1, 'small': 2, 'medium': 4, 'large': 8}[size]
     schemas = ['public', 'public', 'public', nm('s'), nm('s')]
+    if rng.random() < 0.15:
+        schemas.append(rng.choice(['Public', 'PUBLIC', 'publi', 'public_']))   # not the default schema: must stay qualified
 
     def maybe(p, f):
         return f() if rng.random() < p else None
